@@ -63,6 +63,23 @@ theorem get?_insert (m : M) (k k' : Nat) (v : Int) :
   simp only [insert, get?, get?_erase]
   by_cases h : k = k' <;> simp [h]
 
+theorem erase_erase (m : M) (k : Nat) : erase (erase m k) k = erase m k := by
+  induction m with
+  | nil => rfl
+  | cons e m ih =>
+    obtain ⟨a, v⟩ := e
+    by_cases h : a = k
+    · simp only [erase, h, if_true, ih]
+    · simp only [erase, h, if_false, ih]
+
+/-- overwriting right after get-or-create is a plain insert -/
+theorem insert_getOrCreate (m : M) (k : Nat) (d v : Int) :
+    insert (getOrCreate m k d).1 k v = insert m k v := by
+  simp only [getOrCreate]
+  cases get? m k with
+  | some w => rfl
+  | none => simp only [insert, erase, if_true, erase_erase]
+
 theorem mem_keys_iff (m : M) (k : Nat) : k ∈ keys m ↔ contains m k = true := by
   induction m with
   | nil => simp [keys, contains, get?]
